@@ -12,7 +12,7 @@ import vlib
 from vlib import Report, run_tlc, tlc_must_pass, xv_json, read_ndjson, workdir
 
 PID = "C16"
-CONF = {"quick": [("Full", 4, 2)], "thorough": [("Full", 5, 2), ("Core", 6, 1)]}
+CONF = {"quick": [("Full", 4, 2)], "thorough": [("Full", 5, 2)]}
 FUZZ = {"quick": 4000, "thorough": 60000}
 CFG = "SPECIFICATION Spec\nCONSTANTS\n  MaxLen = %d\n  Alphabet <- %s\nINVARIANT Props\nINVARIANT Export\nCHECK_DEADLOCK FALSE\n"
 
